@@ -15,5 +15,7 @@ func NewDialog(callID string, localTag string, remoteTag string) *Dialog {
 }
 
 func (d *Dialog) String() string {
-	return fmt.Sprintf("%s-%s-%s", d.callID, d.localTag, d.remoteTag)
+	// the parts are joined with a blank, which can occur neither in a Call-ID nor in a tag
+	// nor in a URI ('-' can: "a-t" + "u" and "a" + "t-u" must not collide)
+	return fmt.Sprintf("%s %s %s", d.callID, d.localTag, d.remoteTag)
 }
